@@ -28,6 +28,8 @@ def phys(ip: DimInterp):
 
 def check(ctx):
     repo = ctx.repo
+    ctx.rule("R08.8", "the unit labels of a Solution (field_units, current_units) are stored when it is created; they are not read through "
+                      "the caller's mutable options object", 2)
     ctx.rule("R08.7", "the scales the solver reads from the device (K0, A0, Bc2 ...) are recomputed on every access, never memoised", 6)
     ctx.rule("R08.6", "a function that takes a unit parameter hands it on to every callee that takes the same parameter (no silent fall-back to the callee's default unit)", 5)
     ctx.rule("R08.1", "every .to(unit) converts between equal dimensions; every bare scale the solver uses equals its "
@@ -108,6 +110,7 @@ def check(ctx):
 
     # -- the time-dependent evaluation sites use the same scale and the same points as the constructor ------
     units_forwarded(ctx)
+    solution_unit_labels(ctx)
     drive_siblings(ctx)
     # -- conversions in post-processing ------------------------------------------------------
     post_processing(ctx)
@@ -330,3 +333,35 @@ def units_forwarded(ctx):
                        construct=f"{p_} not forwarded from {f.qual} to {g.qual}", loc=loc(f, c),
                        message=f"{f.qual} takes `{p_}` but calls {g.qual}({norm(c)[len(norm(c.func)) + 1:][:60]}...) without it: the callee falls back to its default unit",
                        consequence="the same physical input stated in other units gives another dimensionless problem (off by the ratio of the units)")
+
+
+def solution_unit_labels(ctx):
+    """R08.8: Solution.field_units / current_units label every number the solution hands out.  The options object is shared with the
+    caller (neither the solver nor the Solution copies it), so the labels must be the solution's own attributes, written at
+    construction only."""
+    repo = ctx.repo
+    S = repo.cls("tdgl.solution.solution", "Solution")
+    defs = [d for d in S.node.body if isinstance(d, ast.FunctionDef)]
+    for name in ("field_units", "current_units"):
+        getters = [d for d in defs if d.name == name and any(norm(x) == "property" for x in d.decorator_list)]
+        if len(getters) != 1:
+            raise AnalysisError(f"Solution.{name} is no longer a property")
+        g = getters[0]
+        rets = [r.value for r in ast.walk(g) if isinstance(r, ast.Return) and r.value is not None]
+        own = [r for r in rets if isinstance(r, ast.Attribute) and isinstance(r.value, ast.Name) and r.value.id == "self"]
+        attr = own[0].attr if len(rets) == 1 and len(own) == 1 else None
+        writers = []
+        if attr is not None:
+            for d in defs:
+                for x in ast.walk(d):
+                    if isinstance(x, ast.Attribute) and x.attr == attr and isinstance(x.ctx, ast.Store) and isinstance(x.value, ast.Name) and x.value.id == "self":
+                        writers.append(d.name)
+        through = sorted({norm(x) for r in rets for x in ast.walk(r) if isinstance(x, ast.Attribute) and norm(x) in ("self.options", "self.device", "self.tdgl_data")})
+        ok = attr is not None and writers and set(writers) <= {"__init__"} and not through
+        f = S.methods.get(name)
+        ctx.ob("R08.8", f"Solution.{name} returns an attribute of the solution that only __init__ writes", ok,
+               detail={"returns": [norm(r) for r in rets], "written_by": sorted(set(writers)), "reads_through": through}, where=f"{S.fq}.{name}",
+               construct=f"Solution.{name} label", loc=loc(f, g) if f else "",
+               message=f"Solution.{name} returns {[norm(r) for r in rets]}" + (f", read through {through}: the options object belongs to the caller" if through else ""),
+               consequence="re-using one SolverOptions object for a second solve in other units (or assigning options.field_units after a solve) relabels the "
+                           "numbers of the earlier Solution: its applied vector potential is off by the ratio of the two units")
